@@ -636,13 +636,37 @@ def flush_page_contract():
         o = c.st.obj(c.args["current_page"].ref)
         return o.data.length == 0 if o.kind == "alist" else z3.BoolVal(o.kind == "list" and not o.data)
 
+    # the closure is found by its role (the nested function of the page splitter that appends to self.pages); its free list
+    # variable is the one it joins / clears
+    from pyvc import loader as _loader
+    name, buf = "flush_page", "current_page"
+    try:
+        outer = _loader.module(RTF).functions.get("_RtfParser._strip_rtf_full_with_pages")
+        cl = [n for n in (outer.body if outer is not None else []) if isinstance(n, ast.FunctionDef) and any(
+            isinstance(x, ast.Call) and isinstance(x.func, ast.Attribute) and x.func.attr == "append" and ast.unparse(x.func.value) == "self.pages"
+            for x in ast.walk(n))]
+        if len(cl) == 1:
+            name = cl[0].name
+            local = {t.id for x in ast.walk(cl[0]) if isinstance(x, (ast.Assign, ast.AnnAssign)) for t in (x.targets if isinstance(x, ast.Assign) else [x.target])
+                     if isinstance(t, ast.Name)}
+            free = [x.func.value.id for x in ast.walk(cl[0]) if isinstance(x, ast.Call) and isinstance(x.func, ast.Attribute) and x.func.attr == "clear"
+                    and isinstance(x.func.value, ast.Name) and x.func.value.id not in local]
+            if len(set(free)) == 1:
+                buf = free[0]
+    except (OSError, SyntaxError):
+        pass
+
+    def buffer_reset(c):     # noqa: F811  (bound to the discovered buffer name)
+        o = c.st.obj(c.args[buf].ref)
+        return o.data.length == 0 if o.kind == "alist" else z3.BoolVal(o.kind == "list" and not o.data)
+
     return FnContract(
-        target=f"{RTF}::_RtfParser._strip_rtf_full_with_pages.<locals>.flush_page",
-        params=[("self", p_obj("_RtfParser", {"pages": p_alist("str")})), ("current_page", p_alist("str"))],
+        target=f"{RTF}::_RtfParser._strip_rtf_full_with_pages.<locals>.{name}",
+        params=[("self", p_obj("_RtfParser", {"pages": p_alist("str")})), (buf, p_alist("str"))],
         ensures=[("every-page-break-opens-exactly-one-page-entry", one_entry), ("earlier-pages-kept-in-place", kept),
                  ("page-buffer-reset", buffer_reset)],
         raises=[],
-        modifies=("self", "current_page"),
+        modifies=("self", buf),
         note="closure verified with its free variables as parameters",
     )
 
@@ -843,6 +867,28 @@ class C03Executor(ET.ETreeMixin, X.UnitsExecutor):
         if spec is None or (spec.inv is None and spec.unroll is None):
             st.assume(OVER)
         return super().s_While(s, st)
+
+    def e_YieldFrom(self, n, st):
+        v = n.value
+        if isinstance(v, (ast.GeneratorExp, ast.ListComp)) and len(v.generators) == 1 and self._probe_iter(v, st) is not None:
+            g = v.generators[0]
+            body = ast.Expr(ast.Yield(v.elt))
+            for cond in reversed(g.ifs):
+                body = ast.If(cond, [body], [])
+            loop = ast.For(g.target, g.iter, [body], [])
+            ast.copy_location(loop, n)
+            ast.fix_missing_locations(loop)
+            outs = self.s_For(loop, st)
+            res = []
+            for o in outs:
+                if o.kind == "fall":
+                    res.append((o.st, NONE))
+                elif o.kind == "raise":
+                    self.raise_in(o.st, o.val)
+                else:
+                    raise X.Unsupported(f"{self.loc(n)} {o.kind} out of a comprehension")
+            return res
+        return super().e_YieldFrom(n, st)
 
     def compare(self, st, op, a, b, node):
         # `cell is None` on an abstract cell value
